@@ -689,51 +689,58 @@ class Interp:
         return self.trace.decided.get(f"Gt:{ln.poly!r}") is False
 
     def s_While(self, st, env):
-        """While the test has a definite answer on the current state the loop is unrolled (bounded); from the first
-        iteration whose test is open — rolled back — the abstract loop takes over."""
+        """While an iteration is completely determined by the current state — the test has a definite answer, the body asks
+        the oracle nothing and ends in one way — the loop is unrolled (bounded). Each iteration runs on a clone of the state;
+        the first one that is not determined is rolled back and the abstract loop takes over from there."""
         outs: dict = {}
         cur = env
+        tr = self.trace
         for _ in range(64):
-            saved_iters, nev, ndec = dict(self.trace.iters), len(self.trace.events), len(self.trace.decisions)
-            saved_vars = []
-            e_ = cur
-            while e_ is not None:
-                saved_vars.append((e_, dict(e_.vars)))
-                e_ = e_.parent
-            t = self.eval(st.test, cur)
-            dec = self.truth(t)
-            if dec is None:
-                if len(self.trace.decisions) == ndec:
-                    # nothing irrevocable happened while evaluating the open test: undo its effects (walrus targets, iterator positions)
-                    self.trace.iters = saved_iters
-                    del self.trace.events[nev:]
-                    for e2, vs in saved_vars:
-                        e2.vars.clear()
-                        e2.vars.update(vs)
-                break
-            if not dec:
-                if st.orelse:
-                    r = self.exec_block(st.orelse, cur)
-                    for kind, (e, val) in r.items():
-                        self._merge_out(outs, kind, e, val)
-                else:
-                    self._merge_out(outs, NORMAL, cur, None)
-                return self._finish_while(outs)
-            r = self.exec_block(st.body, cur)
-            nxt = None
-            for kind, (e, val) in r.items():
-                if kind in (NORMAL, CONTINUE):
-                    if nxt is None:
-                        nxt = e
+            snap = (dict(tr.iters), len(tr.events), len(tr.decisions), len(self.oracle.log), dict(tr.decided), dict(tr.taint))
+
+            def rollback():
+                tr.iters = snap[0]
+                del tr.events[snap[1]:]
+                del tr.decisions[snap[2]:]
+                del self.oracle.log[snap[3]:]
+                tr.decided = snap[4]
+                tr.taint = snap[5]
+
+            probe = cur.clone({})
+            try:
+                t = self.eval(st.test, probe)
+                dec = self.truth(t)
+                if dec is None or len(self.oracle.log) != snap[3]:
+                    rollback()
+                    break
+                if not dec:
+                    self.adopt_env(cur, probe)
+                    if st.orelse:
+                        r = self.exec_block(st.orelse, cur)
+                        for kind, (e, val) in r.items():
+                            self._merge_out(outs, kind, e, val)
                     else:
-                        self.join_env_into(nxt, e)
-                elif kind == BREAK:
-                    self._merge_out(outs, "loopbreak", e, None)
-                else:
-                    self._merge_out(outs, kind, e, val)
-            if nxt is None:
-                return self._finish_while(outs)
-            cur = nxt
+                        self._merge_out(outs, NORMAL, cur, None)
+                    return self._finish_while(outs)
+                r = self.exec_block(st.body, probe)
+            except AbsRaise:
+                if len(self.oracle.log) != snap[3]:
+                    rollback()
+                    break
+                self.adopt_env(cur, probe)
+                raise
+            if len(self.oracle.log) != snap[3] or len(r) != 1:
+                rollback()
+                break
+            (kind, (e, val)), = r.items()
+            self.adopt_env(cur, e)
+            if kind in (NORMAL, CONTINUE):
+                continue
+            if kind == BREAK:
+                self._merge_out(outs, NORMAL, cur, None)
+            else:
+                self._merge_out(outs, kind, cur, val)
+            return self._finish_while(outs)
         r = self._abstract_loop(st, cur, None, {"while": True})
         for kind, (e, val) in r.items():
             self._merge_out(outs, kind, e, val)
